@@ -1,5 +1,7 @@
 (* C16 — Thermostat control changes only what was asked *)
-Require Import AS.Base.Prelude AS.Base.Hex AS.Base.Dec AS.Base.Template AS.Base.Exchange AS.Gen.Extracted AS.Model.DeviceTools AS.Model.Messages AS.Model.Remotes AS.Model.Api AS.Proofs.ApiProofs AS.Proofs.LengthProofs.
+Require Import AS.Base.Prelude AS.Base.Hex AS.Base.Dec AS.Base.Template AS.Base.Exchange AS.Gen.Extracted AS.Model.DeviceTools AS.Model.Messages AS.Model.Remotes AS.Model.Api AS.Proofs.ApiProofs AS.Proofs.LengthProofs
+  AS.Base.Utf8 AS.Spec.Sign AS.Spec.Frame AS.Spec.FrameLayout AS.Spec.Encoders AS.Spec.FrameSpec AS.Spec.IrChoice AS.Spec.Remote
+  AS.Proofs.SpecOps AS.Proofs.RemoteSpec AS.Proofs.BreezeExact.
 
 (* nothing actionable: RuntimeError after the login frame only, whatever the device answers *)
 Local Open Scope N_scope.
@@ -32,3 +34,97 @@ Proof. exact (set_message_length_ok m b). Qed.
 Print Assumptions C16_frame_length.
 Local Close Scope N_scope.
 
+
+(* ---- the exact exchange, for every request and every reported state ----
+   In all four theorems the device is (idb, keyb), the clock reads [now], the login reply r0 carries a session id, the state
+   reply sr parses to [cur] and the later replies are non-empty.  The merged value of each field is the requested one, else
+   the one the device just reported ([cur]); nothing else of the request or of [cur] reaches the frames. *)
+Local Open Scope N_scope.
+Section Exact.
+Variables (idb : bytes) (keyb now : N) (r0 sr r2 : bytes).
+Hypothesis Lid : length idb = 3%nat.
+Hypothesis Hid : Forall (fun b => b < 256) idb.
+Hypothesis Hkey : keyb < 256.
+Hypothesis Hnow : now < 4294967296.
+Hypothesis Hr0 : Forall (fun b => b < 256) r0.
+Hypothesis Lr0 : (12 <= length r0)%nat.
+Hypothesis Hsr : sr <> [].
+Hypothesis Hr2 : r2 <> [].
+Variables (state : option bool) (mode : option string) (target : Z) (fan : option string) (swing : option bool).
+Variable cur : thermostat_fields.
+Hypothesis Hparse : parse_thermostat_reply sr = Ok cur.
+Let c := cfg_of idb keyb.
+Let h := hdr_args (pyslice 8 12 r0) now idb.
+Let m_on := or_else state (tf_on cur).
+Let m_mode := or_else mode (tf_mode cur).
+Let m_target := if (target =? 0)%Z then Z.of_N (tf_target cur) else target.
+Let m_fan := or_else fan (tf_fan cur).
+
+(* update_state: exactly login, state query, and the status frame of the merged values (swing never for a separate-swing remote) *)
+Theorem C16_update_exact (r : remote) rest mbyte fnib mv fv dm df :
+  (is_some state || is_some mode || negb (target =? 0)%Z || is_some fan || (is_some swing && negb (r_sep r)))%bool = true ->
+  let m_swing := if r_sep r then false else or_else swing (tf_swing_on cur) in
+  In (m_mode, mv, dm) thermostat_modes -> hexlify [mbyte] = s2l mv -> mbyte < 256 ->
+  In (m_fan, fv, df) fan_levels -> [hexdigit fnib] = s2l fv -> fnib < 16 ->
+  Z.to_N m_target < 256 ->
+  exists LF GS ST, spec_login true idb [keyb] now = Frame LF /\ frame_of L_get_state2 h = Frame GS /\
+    spec_breeze_status h m_on mbyte (Z.to_N m_target) fnib m_swing = Frame ST /\
+    Exchange.run (control_breeze_device false c now r state mode target fan swing true) (r0 :: sr :: r2 :: rest) = ([LF; GS; ST], Ok r2).
+Proof.
+  exact (breeze_update_exact idb keyb now r0 sr r2 Lid Hid Hkey Hnow Hr0 Lr0 Hsr Hr2 state mode target fan swing cur Hparse
+           r rest mbyte fnib mv fv dm df).
+Qed.
+
+(* IR: exactly login, state query, and the command the Spec of C15 chooses for the merged values *)
+Theorem C16_ir_exact (s : irset) rest text :
+  let r := make_remote s in
+  (is_some state || is_some mode || negb (target =? 0)%Z || is_some fan || (is_some swing && negb (r_sep r)))%bool = true ->
+  (r_sep r && is_some swing)%bool = false ->
+  let m_swing := if r_sep r then false else or_else swing (tf_swing_on cur) in
+  spec_build s m_on m_mode m_target m_fan m_swing (Some (tf_on cur)) = Code text ->
+  Forall (fun b => b < 256) text -> N.of_nat (length text) < 65000 ->
+  exists LF GS IR, spec_login true idb [keyb] now = Frame LF /\ frame_of L_get_state2 h = Frame GS /\
+    spec_breeze_command h text = Frame IR /\
+    Exchange.run (control_breeze_device false c now r state mode target fan swing false) (r0 :: sr :: r2 :: rest) = ([LF; GS; IR], Ok r2).
+Proof.
+  exact (breeze_ir_exact idb keyb now r0 sr r2 Lid Hid Hkey Hnow Hr0 Lr0 Hsr Hr2 state mode target fan swing cur Hparse s rest text).
+Qed.
+
+(* IR with a separate swing button: the main command is built without swing and a fourth frame carries the swing command *)
+Theorem C16_ir_swing_exact (s : irset) r3 rest text sw text2 :
+  let r := make_remote s in
+  r_sep r = true -> swing = Some sw ->
+  (is_some state || is_some mode || negb (target =? 0)%Z || is_some fan)%bool = true ->
+  spec_build s m_on m_mode m_target m_fan false (Some (tf_on cur)) = Code text ->
+  Forall (fun b => b < 256) text -> N.of_nat (length text) < 65000 ->
+  spec_swing s sw = Code text2 ->
+  Forall (fun b => b < 256) text2 -> N.of_nat (length text2) < 65000 ->
+  exists LF GS IR SW, spec_login true idb [keyb] now = Frame LF /\ frame_of L_get_state2 h = Frame GS /\
+    spec_breeze_command h text = Frame IR /\ spec_breeze_command h text2 = Frame SW /\
+    Exchange.run (control_breeze_device false c now r state mode target fan swing false) (r0 :: sr :: r2 :: r3 :: rest)
+      = ([LF; GS; IR; SW], Ok r3).
+Proof.
+  exact (breeze_ir_swing_exact idb keyb now r0 sr r2 Lid Hid Hkey Hnow Hr0 Lr0 Hsr Hr2 state mode target fan swing cur Hparse
+           s r3 rest text sw text2).
+Qed.
+End Exact.
+Print Assumptions C16_update_exact.
+Print Assumptions C16_ir_exact.
+Print Assumptions C16_ir_swing_exact.
+
+(* only the swing of a separate-swing remote: no state query, no main command, one swing frame *)
+Theorem C16_swing_only_exact idb keyb now r0 r1 rest (s : irset) sw text2 :
+  length idb = 3%nat -> Forall (fun b => b < 256) idb -> keyb < 256 -> now < 4294967296 ->
+  Forall (fun b => b < 256) r0 -> (12 <= length r0)%nat ->
+  let r := make_remote s in
+  r_sep r = true -> spec_swing s sw = Code text2 ->
+  Forall (fun b => b < 256) text2 -> N.of_nat (length text2) < 65000 ->
+  exists LF SW, spec_login true idb [keyb] now = Frame LF /\
+    spec_breeze_command (hdr_args (pyslice 8 12 r0) now idb) text2 = Frame SW /\
+    Exchange.run (control_breeze_device false (cfg_of idb keyb) now r None None 0%Z None (Some sw) false) (r0 :: r1 :: rest)
+      = ([LF; SW], Ok r1).
+Proof.
+  intros Lid Hid Hkey Hnow Hr0 Lr0. exact (breeze_swing_only_exact idb keyb now r0 r1 rest Lid Hid Hkey Hnow Hr0 Lr0 s sw text2).
+Qed.
+Print Assumptions C16_swing_only_exact.
+Local Close Scope N_scope.
